@@ -433,3 +433,19 @@ func (g *Gen) Modification(s *CPSession) *ModSpec {
 	}
 	return m
 }
+
+// SessionFixed builds a plain session without drawing any choice (used inside
+// scheduled events).
+func (g *Gen) SessionFixed(p *Peer) *CPSession {
+	s := &CPSession{CPSEID: p.NewCPSEID(), Peer: p}
+	ue := u32IP(g.nextUE)
+	g.nextUE++
+	g.nextTEID += 2
+	s.FARs = append(s.FARs,
+		&FARSpec{ID: 1, Action: ActFORW, DstIface: IfCore, HasFwd: true},
+		&FARSpec{ID: 2, Action: ActFORW, DstIface: IfAccess, HasFwd: true, HasOHC: true, TEID: g.nextTEID, PeerIP: g.gnbs[0]})
+	s.PDRs = append(s.PDRs,
+		&PDRSpec{ID: 1, Precedence: 255, SrcIface: IfAccess, HasFTEID: true, TEID: g.nextTEID - 1, TEIDAddr: ip4(N3Addr), HasUEIP: true, UEIP: ue, OHR: true, FARID: 1},
+		&PDRSpec{ID: 2, Precedence: 255, SrcIface: IfCore, HasUEIP: true, UEIP: ue, FARID: 2})
+	return s
+}
